@@ -29,6 +29,7 @@ def main(tier: str) -> int:
         mod = importlib.import_module(f"sim.props.{pid.lower()}")
         check = mod.CHECK
         core._CHECK = check
+        core.preload()
         n = n_idx if pid not in ("C05", "C06", "C11") else max(6, n_idx // 4)
         digests = {}
         mism = []
